@@ -1,5 +1,6 @@
+import Ebu.Proofs.ConcTrace
 import Ebu.Spec.Flow
-import Ebu.Props.C03
+import Ebu.Props.C03Facts
 import Ebu.Spec.Conc
 import Ebu.Proofs.Conc
 /-!
@@ -44,5 +45,23 @@ theorem flow_handler_mutex : Ebu.Flow.handlerBracket = true := by decide +kernel
 
 /-- OBLIGATION: `awaitTurn` re-checks `seqServing` in a loop around `seqCond.Wait` and `releaseTurn` advances `seqServing` and BROADCASTS under `seqMu`: M2's turn step is enabled exactly when `serving = ticket`, which needs every waiting goroutine to be woken, not just one -/
 theorem flow_turn_wakes_every_waiter : Ebu.Flow.condVarShape = true := by decide +kernel
+
+/-! ### every event dispatched to an Async(+Sequential) handler is delivered exactly once (M2 with its trace) -/
+
+/-- the goroutine started for one event of an Async (+Sequential) handler delivers exactly that event to exactly that
+registration, at most once – and exactly once when it has finished and the publish context is live -/
+theorem async_sequential_delivery_exactly_once (progs : List (List Ebu.Conc.Op)) (x : Ebu.Conc.SysT)
+    (h : Ebu.Conc.ReachableT progs x) (i : Nat) (th : Ebu.Conc.Thread) (j : Ebu.Conc.Job)
+    (hi : x.s.ths[i]? = some th) (hj : th.job = some j) :
+    (Ebu.Conc.asyncEntersOf i x.tr = [] ∨ Ebu.Conc.asyncEntersOf i x.tr = [Ebu.Conc.Obs.enter j.reg.rid j.ty j.v true]) ∧
+    (th.pc = .done → x.s.sh.live j.ctx = true →
+      Ebu.Conc.asyncEntersOf i x.tr = [Ebu.Conc.Obs.enter j.reg.rid j.ty j.v true]) :=
+  ⟨Ebu.Conc.async_at_most_once h i th j hi hj, fun hd hl => Ebu.Conc.async_exactly_once_when_done h i th j hi hj hd hl⟩
+
+/-- no goroutine waits for a turn or a Sequential mutex for ever: under the rank hypothesis every maximal run ends with
+every goroutine finished -/
+theorem no_invocation_starves (ρ : Nat → Nat) (progs : List (List Ebu.Conc.Op)) (hr : Ebu.Conc.Ranked ρ progs)
+    (x : Ebu.Conc.SysT) (h : Ebu.Conc.ReachableT progs x) (hmax : ¬ x.s.canStep) : x.s.allDone :=
+  (Ebu.Conc.maximal_run_delivers_everything ρ progs hr h hmax).1
 
 end Ebu.Props.C07
